@@ -53,6 +53,21 @@ CHECKS = {
         technique="constant folding + GF(2) table algebra (exhaustive); abstract interpretation over GF(2)-affine forms",
         note="trusted: CPython ast, sa/algebra.py, numpy/bitarray operation models, pinned ETSI matrices in spec/fec_matrices.json",
         ref="DESIGN.md §3 C06"),
+    "C07": dict(
+        text="Static: the generator's block-size tables are folded and compared with the Rate*DataTypes members and resolve(); for each rate x mode x analysed payload length the real pipeline "
+             "(generate_full_data_transmission -> Burst.as_bytes -> Burst.from_bytes -> Transmission.process_packet with an effect-recording observer) is analysed by abstract interpretation with symbolic payload octets: "
+             "one start + one data end, received data == payload atoms + announced zero pad, CRC-32 == uninterpreted CRC32 of that data in transmitted byte order, confirmed CRC-9 indicators provably True, "
+             "exact preamble countdown; plus two transmissions back to back on one tracker.",
+        technique="constant folding; abstract interpretation of the whole generate/serialise/parse/track pipeline over GF(2)-affine forms, per analysed length",
+        note="trusted: C02/C05/C10 for BPTC, CRC engines (uninterpreted) and trellis (inverse pair); lengths analysed are listed in the evidence (quick 24 lengths up to 60 octets, thorough 0..129,255..257,400); other lengths are not decided",
+        ref="DESIGN.md §3 C07"),
+    "C08": dict(
+        text="Static, inductive over histories: for every tracker state satisfying the state invariant and every next burst kind (with the decoded PDU's decision fields symbolic) the real Transmission.process_packet is analysed with observers as "
+             "effect stubs: never raises, ended(K) only while K is open, the ended event hands over the current header and the very blocks list, afterwards idle with fresh list / no header / fresh stream id / reset counters, invariant preserved; "
+             "A-F label table (7 previous labels x 3 burst kinds), Timeslot receive-sequence counter exact for all 256 values, observer isolation with raising observers, overrides call super.",
+        technique="abstract interpretation of the state machine on (abstract state) x (burst kind) products with effect recording; inductive state invariant",
+        note="trusted: PDU decoders/BPTC stubbed (C02/C03); the invariant enumerates header kinds {none, full LC, data header}; 'never raises' is relative to those stubs",
+        ref="DESIGN.md §3 C08"),
     "C09": dict(
         text="Static: tables of the three variable-length BPTCs folded and checked against ETSI B.2 transmit order and flag sets; abstract interpretation over GF(2)-affine forms "
              "decides for all messages: systematic placement, zero Hamming syndrome of every data row, column parity (even/odd), checksum read-back in the consumers' bit order, "
